@@ -513,6 +513,20 @@ def rare_sign_cases(s):
     return out
 
 
+def bucket_edge_cases(s):
+    """(tag, xi, sk, pk, msg): honest signatures (empty context, rnd = 0) whose accepted attempt has a coefficient of w - c s2 + c t0 exactly on the
+    Decompose bucket edge (2k+1) gamma2, one message per k (corpus/bucket_edges.json, checks/mk_corpus_edges.py)"""
+    import json
+    path = os.path.join(os.path.dirname(os.path.dirname(os.path.abspath(__file__))), 'corpus', 'bucket_edges.json')
+    try:
+        d = json.load(open(path))
+    except OSError:
+        return []
+    xi = bytes.fromhex(d['xi'])
+    pk, sk = keypair(s, xi)
+    return [(f'bucket edge k={k}', xi, sk, pk, bytes.fromhex(m)) for k, m in d['cases'].get(s, {}).items()]
+
+
 def extremal_t0_cases(s):
     """ML-DSA-44: a private key deserialisation accepts but key generation never returns (t0 at the ends of its range) and messages for
     which Algorithm 7 rejects an attempt on ||c t0|| >= gamma2: (tag, sk, msg, ctx, rnd)"""
